@@ -33,10 +33,19 @@ def _scale(d0, d1):
     return TimeScale().domain([d0, d1])
 
 
-def check_ticks(run, d0, d1, m):
-    """m is an int in 2..50 or None for the default count"""
+def check_ticks(run, d0, d1, m, prior=()):
+    """m is an int in 2..50 or None for the default count; prior: counts the SAME scale instance was asked for before
+    (what a scale answers must not depend on what it was asked earlier)"""
     inp = {"domain": [d0, d1], "m": m}
-    ok, res = run.guard(lambda: list(_scale(d0, d1).ticks() if m is None else _scale(d0, d1).ticks(m)), "C16.never_raises", inp)
+    if prior:
+        inp["prior_ticks_calls"] = list(prior)
+
+    def ask():
+        s = _scale(d0, d1)
+        for p in prior:
+            list(s.ticks() if p is None else s.ticks(p))
+        return list(s.ticks() if m is None else s.ticks(m))
+    ok, res = run.guard(ask, "C16.never_raises", inp)
     if not ok:
         return None
     ticks = res
@@ -221,6 +230,15 @@ def explore(run):
     if not cut:
         run.exhaustive("(B) %d anchor x span domains (1 ms .. 250 years) x m in 2..50 and default%s"
                        % (n, " (every m for the first 3 anchors, m in %s and default for 5 more)" % M_SUBSET if quick else ""))
+    nh = 0
+    for k, (a, b, ms) in enumerate(ladder_domains(0)):
+        if k % 5:
+            continue
+        for prior, m in (((None,), 50), ((50,), None), ((2,), 37), ((37, None), 2)):
+            check_ticks(run, a, b, m, prior)
+            run.case(("H", str(a), str(b), m, prior), nontrivial=True)
+            nh += 1
+    run.exhaustive("(H) %d histories: ticks(p) on the same instance before ticks(m)" % nh)
     rng = run.rng
     while run.left() > 0:
         for _ in range(50):
@@ -234,7 +252,7 @@ def explore(run):
 
 def replay(run, inp):
     d0, d1 = inp["domain"]
-    check_ticks(run, d0, d1, inp.get("m"))
+    check_ticks(run, d0, d1, inp.get("m"), tuple(inp.get("prior_ticks_calls", ())))
 
 
 if __name__ == "__main__":
